@@ -137,6 +137,50 @@ def rule_AU1(ctx, tier):
                 rr.ok("%s: client signs the same template" % name)
             else:
                 rr.fail("%s:client-template" % name, "the client (`%s`) does not sign the template `%r` the tower verifies" % (client_fns[fn], lit), where=cf.span)
+    # per-user keys: every uuid used to read or write appointment data in the request paths is built from the
+    # request's locator and the AUTHENTICATED id (isolation between users sharing a locator)
+    ga = P.require(W + "get_appointment")
+    for bb, t in ga.calls():
+        tgt = call_target(t) or ""
+        if tgt in (DBM + "load_tracker", DBM + "load_appointment"):
+            u = arg_origin(ctx, ga, bb, 1)
+            un = find_calls(u, "UUID::new")
+            a = (un[0][2] if un and un[0][0] == "call" else un[0][4]) if un else ()
+            if un and len(a) == 2 and a[0] == ("param", ga.id, 2) and has_call(a[1], "Gatekeeper::authenticate_user"):
+                rr.ok("get_appointment: %s keyed by UUID::new(request locator, authenticated id)" % shortfn(tgt))
+            else:
+                rr.fail("get_appointment:key:%s" % shortfn(tgt), "`%s` is keyed by `%s`, not by UUID::new(locator, authenticated id): one user could read another's data" % (shortfn(tgt), og.show(u)[:120]), where=ga.line_of(bb))
+    for cid in P.children(ga.id):
+        cb = P.bodies[cid]
+        for bb, t in cb.calls():
+            tgt = call_target(t) or ""
+            if tgt in (DBM + "load_tracker", DBM + "load_appointment"):
+                u = arg_origin(ctx, cb, bb, 1)
+                un = find_calls(u, "UUID::new")
+                a = (un[0][2] if un and un[0][0] == "call" else un[0][4]) if un else ()
+                if un and len(a) == 2 and a[0] == ("param", ga.id, 2) and has_call(a[1], "Gatekeeper::authenticate_user"):
+                    rr.ok("get_appointment closure: %s keyed by the same uuid" % shortfn(tgt))
+                else:
+                    rr.fail("get_appointment:key:%s" % shortfn(tgt), "`%s` is keyed by `%s`" % (shortfn(tgt), og.show(u)[:120]), where=cb.line_of(bb))
+    aa = P.require(W + "add_appointment")
+    for bb, t in aa.calls():
+        tgt = call_target(t) or ""
+        idx = {RSP + "has_tracker": 1, GK + "add_update_appointment": 2, W + "store_appointment": 1, W + "store_triggered_appointment": 1}.get(tgt)
+        if idx is None:
+            continue
+        u = arg_origin(ctx, aa, bb, idx)
+        ok = has_call(u, "ExtendedAppointment::uuid") and has_call(u, "ExtendedAppointment::new") and has_call(u, "Gatekeeper::authenticate_user")
+        if ok:
+            rr.ok("add_appointment: %s keyed by the uuid of (request, authenticated id)" % shortfn(tgt))
+        else:
+            rr.fail("add_appointment:key:%s" % shortfn(tgt), "`%s` is keyed by `%s`" % (shortfn(tgt), og.show(u)[:120]), where=aa.line_of(bb))
+    eu = P.require("teos::extended_appointment::ExtendedAppointment::uuid")
+    ru = ctx.og.local(eu, 0)
+    un = find_calls(ru, "UUID::new")
+    if un and "f:user_id" in og.show(ru) and ("locator" in og.show(ru)):
+        rr.ok("ExtendedAppointment::uuid = UUID::new(self.locator(), self.user_id)")
+    else:
+        rr.fail("uuid:derivation", "ExtendedAppointment::uuid is `%s`" % og.show(ru)[:120], where=eu.span)
     # authenticate_user itself: recover over (message, signature), then membership
     a = P.require(AUTH)
     rec = sites(a, "teos_common::cryptography::recover_pk")
@@ -185,7 +229,7 @@ def rule_AU1(ctx, tier):
             rr.ok("UUID::new consumes locator and user id")
         else:
             rr.fail("uuid:inputs", "UUID::new does not use both the locator and the user id (uses params %s)" % sorted(used), where=u.span)
-    rr.require_floor(30, "AU1 instances")
+    rr.require_floor(38, "AU1 instances")
     return rr
 
 
